@@ -235,6 +235,9 @@ func VxC08StringPrint() {
 	a, b := String(s1), String(s2)
 	pa, pb := a.String(), b.String()
 	vxReach("printed")
+	vxObserve("printed-a", pa)
+	vxObserve("printed-b", pb)
+	vxObserve("hash-a", a.Hash())
 	eq := a.Equals(b)
 	vxAssert(eq == (s1 == s2), "equals-is-structural")
 	if eq {
